@@ -13,7 +13,7 @@ from typing import Tuple, Union
 NumberLike = Union[int, float, str]
 ColorInput = Union[str, Tuple, list]
 
-_NUM_RE = re.compile(r"[-+]?\d*\.?\d+%?")
+_NUM_RE = re.compile(r"[-+]?\d*\.?\d+(?:[eE][-+]?\d+)?%?")  # exponent notation is one number (str(1e-05))
 
 
 def _parse_number_token(tok: str, component: bool = True) -> float:
